@@ -148,6 +148,10 @@ CATALOGUE: list[tuple] = [
     ("linecol-column-zero-based", ["C14"], PAIRS, "            self.pos - (cumulative_length - len(lines[target_line_index])) + 1\n        )\n        return line_number, column_number", "            self.pos - (cumulative_length - len(lines[target_line_index]))\n        )\n        return line_number, column_number", "fire", "line_col"),
     ("span-lines-off-by-one", ["C14"], PAIRS, "        return lines[start_line_number - 1 : end_line_number]", "        return lines[start_line_number - 1 : end_line_number - 1]", "fire", "Span.lines"),
     ("S-linecol-count-rfind-form", ["C14"], PAIRS, "        lines = self.text.splitlines(keepends=True)\n        cumulative_length = 0\n        target_line_index = -1\n\n        for i, line in enumerate(lines):\n            cumulative_length += len(line)\n            if self.pos < cumulative_length:\n                target_line_index = i\n                break\n\n        if target_line_index == -1:\n            # At the end of the text: on a new line if the text is empty or\n            # ends with a line break, else just after the last line.\n            if lines and lines[-1].splitlines()[0] == lines[-1]:\n                return len(lines), len(lines[-1]) + 1\n            return len(lines) + 1, 1\n\n        # 1-based\n        line_number = target_line_index + 1\n        column_number = (\n            self.pos - (cumulative_length - len(lines[target_line_index])) + 1\n        )\n        return line_number, column_number", "        before = self.text[: self.pos]\n        return before.count(\"\\n\") + 1, self.pos - before.rfind(\"\\n\")", "silent", ""),
+    # ---- the defects repaired by e348d10 / cb8c3d4, put back
+    ("suppress-failures-not-reentrant", ["C13"], STATE, "        yield self\n        self._suppress_failures = suppressed", "        yield self\n        self._suppress_failures = False", "fire", "suppress_failures"),
+    ("error-context-eof-on-previous-line", ["C13"], EXC, "    if not lines or lines[-1].splitlines() != [lines[-1]]:\n        # Empty text, or the end of a text that ends with a line break.\n        return (\"\", len(lines) + 1, index - cumulative_length + 1)\n", "    if not lines:\n        return (\"\", 1, 1)\n", "fire", "error_context"),
+    ("grammar-error-context-eof-on-previous-line", ["C11"], "src/pest/grammar/exceptions.py", "        if not lines or lines[-1].splitlines() != [lines[-1]]:\n            lines.append(\"\")", "        if not lines:\n            lines.append(\"\")", "fire", "_error_context"),
     # ---- C02 O16 (the skip pass on model loop shapes)
     ("skip-pass-ignores-unresolved-alternative", ["C02"], SKIPPERS, "            if not inlined_subs:\n                return None\n", "            if not inlined_subs:\n                continue\n", "fire", "skip"),
     ("skip-pass-any-second-element", ["C02"], SKIPPERS, '                case (NegativePredicate(expression=inner), Any() | Identifier("ANY")):', "                case (NegativePredicate(expression=inner), _):", "fire", "skip"),
